@@ -21,6 +21,9 @@ theorem fact_apply_derefs_guarded : ∀ e ∈ Facts.C12.applyDerefGuarded, e.2 =
 
 theorem fact_apply_max_guarded : Facts.C12.applyMaxGuarded = true := by decide
 
+/-- `Resolve`: a second entry for the same input descriptor id is rejected -/
+theorem fact_resolve_rejects_duplicate_ids : Facts.C12.resolveRejectsDuplicateIds = true := by decide
+
 /-- the configuration the model is run with is the repaired one -/
 theorem fact_cfg_fixed : Facts.C12.cfg = Cfg.fixed := by decide
 
